@@ -380,8 +380,10 @@ func c20SeqRun(x *vmc.X, cfg vmc.Cfg) {
 				model = map[int]bool{}
 			}
 		case "restart":
-			faultArmed = false
-			if err := ks.Close(); err != nil {
+			// the datastore calls of Close (size persisted) and of the start-up (size read back, deleted, or
+			// recounted) are fault injection points too: whatever fails there, the contents and the reported
+			// size after the restart are those of the model
+			if err := ks.Close(); err != nil && !(injected && !wasInjected) {
 				x.Failf("C20/close-error", "Close: %v", err)
 				return
 			}
@@ -391,8 +393,27 @@ func c20SeqRun(x *vmc.X, cfg vmc.Cfg) {
 			}
 			ks, rks, err = env.open()
 			if err != nil {
-				x.Failf("C20/reopen", "reopen: %v", err)
-				return
+				if !(injected && !wasInjected) {
+					x.Failf("C20/reopen", "reopen: %v", err)
+					return
+				}
+				// the constructor reported the injected error: open again without faults
+				faultArmed = false
+				ks, rks, err = env.open()
+				if err != nil {
+					x.Failf("C20/reopen", "reopen after a failed start-up: %v", err)
+					return
+				}
+			}
+			faultArmed = false
+			if injected && !wasInjected {
+				// start-up is over: the size key the previous Close persisted must be gone again (it lives in the
+				// same namespace as the keys, so a survivor is returned by queries as if it were a stored key)
+				synctest.Wait()
+				if strings.Contains(env.group.Dump(), "/size") {
+					x.Failf("C20/size-key-survives-startup", "an injected datastore error during the restart left the keystore's size entry in the key namespace: queries with a short prefix return it as a stored key (datastores: %s)", env.group.Dump())
+					return
+				}
 			}
 		case "reads":
 			faultArmed = false
